@@ -94,6 +94,18 @@ def inputs(nmax, seed, thorough):
             out.append(("hermitian-scaled-up", E.herm_from_spectrum(ul[-1][1], lam) * 2.0 ** 30, [x * 2.0 ** 30 for x in lam]))
             out.append(("integer-large", rng.integers(-3000, 3001, (n, n, 4)).astype(float), None))
         if n >= 3:
+            # NEARLY Hermitian input (asymmetry 1e-6 relative, far above the tolerance): it is a general matrix - nothing may
+            # be "cleaned" away; also one triangle rounded to float32
+            Hn = E.herm_from_spectrum(ul[-1][1], lam)
+            Nz = rng.standard_normal((n, n, 4))
+            out.append(("nearly-hermitian", Hn + 1e-6 * np.max(np.abs(Hn)) * Nz, None))
+            out.append(("nearly-hermitian", Hn * (1.0 + 1e-6 * Nz), None))          # per-entry RELATIVE asymmetry (passes np.allclose-style tests)
+            H32 = Hn + 0.37 * (Nz + np.transpose(Nz, (1, 0, 2)) * [1, -1, -1, -1])
+            for i_ in range(n):
+                for j_ in range(i_):
+                    H32[i_, j_] = H32[i_, j_].astype(np.float32).astype(np.float64)
+            out.append(("nearly-hermitian", H32, None))
+        if n >= 3:
             # block upper triangular / block diagonal: exactly zero sub-diagonal blocks (deflation and skipped reflectors)
             h = n // 2
             Bt = rng.standard_normal((n, n, 4))
